@@ -116,6 +116,8 @@ def _call_idspec(spec, f):
         return "autoincrement:" + f["cols"][0]
     if name == "auto_const":
         return "autoincrement:" + spec.get("base", "k")
+    if name == "auto_colon":
+        return "autoincrement:" + f["cols"][0] + ":" + f["cols"][2]
     if name == "name_or_none":
         v = aget(f, spec.get("key", "Name"))
         return v[0] if v else None
@@ -449,11 +451,25 @@ class Model(object):
         rel = (self.rel | self.stale_links) if alt else self.rel
         out = {}
         for i in self.order:
-            out[i] = {"c1": self.children(i, 1, rel), "c2": self.children(i, 2, rel),
-                      "p1": self.parents(i, 1, rel), "p2": self.parents(i, 2, rel)}
-            if self.opt2:
-                out[i]["c2opt"] = self.children(i, 2, self.opt2)
-                out[i]["p2opt"] = self.parents(i, 2, self.opt2)
+            out[i] = {"c1": set(), "c2": set(), "p1": set(), "p2": set()}
+        for p, c, l in rel:
+            if l in (1, 2):
+                if p in out and c in self.feats:
+                    out[p]["c%d" % l].add(c)
+                if c in out and p in self.feats:
+                    out[c]["p%d" % l].add(p)
+        if self.opt2:
+            for i in self.order:
+                out[i]["c2opt"] = set()
+                out[i]["p2opt"] = set()
+            for p, c, l in self.opt2:
+                if p in out and c in self.feats:
+                    out[p]["c2opt"].add(c)
+                if c in out and p in self.feats:
+                    out[c]["p2opt"].add(p)
+        for i in out:
+            for k in out[i]:
+                out[i][k] = sorted(out[i][k])
         return out
 
 
